@@ -33,7 +33,7 @@ FUNCTIONS = [
 ]
 BOUNDS = ("2 agents; fluents: environment e:bool; A1: l:bool (private), q:bool (public), n:int[0,3] (optional); A2: l:bool, m:bool (public), "
           "p(T):bool over o1,o2; A1: 1-2 actions with <= 3 effects (Boolean set/reset, conditional, increase / assignment of n, effect on "
-          "the environment fluent, effect on the other agent's public fluent through Dot), A2: one action with parameter x:T; "
+          "the environment fluent), A2: one action with parameter x:T; "
           "precondition and the two effect-condition slots range over a pool of 9 condition templates; 4 goal sets "
           "(Dot goals, disjunctive goals, agent public/private goals); all type-correct total states")
 OUTSIDE = "more agents/fluents; durative actions; states with undefined fluents; quantified conditions; real-valued fluents"
@@ -43,14 +43,15 @@ ASSUMPTIONS = ["RefMA (vf/refsem_ma.py): an agent's action reads its own fluents
 
 # condition templates, from the point of view of agent A1
 COND_NAMES = ["l", "not e", "A2.l", "l or A2.m", "not (e or l)", "e and not A2.l", "l implies e", "n < 2", "q or (e and A2.m)"]
-# effect lists for A1.act0: (target, kind, value, cond slot | None); targets: l, q, e, n, A2.m
+# effect lists for A1.act0: (target, kind, value, cond slot | None); targets: l, q, e, n
 EFFS = [
     [("l", "set", True, 0), ("e", "set", False, 1)],
     [("q", "set", True, 0), ("q", "set", False, 1)],          # two conditional effects on one fluent
     [("l", "set", False, None), ("l", "set", True, 0)],         # unconditional reset + conditional set (add-after-delete)
     [("n", "inc", 1, 0), ("e", "set", True, 1)],
     [("n", "assign", 2, 0), ("n", "assign", 0, 1)],           # possibly conflicting assignments
-    [("A2.m", "set", True, 0), ("l", "set", True, None), ("q", "set", False, 1)],
+    [("e", "set", False, 0), ("e", "set", True, 1), ("q", "set", False, 1)],   # reset-before-set on the environment fluent
+    # (an effect on another agent's fluent through Dot is admitted by add_effect but Effect.__init__ raises KeyError: not in the family)
     [("n", "inc", 1, 0), ("n", "dec", 1, 1), ("l", "set", True, None)],
     [("e", "set", True, 0)],                                     # only a conditional effect: no-op branch
 ]
@@ -121,7 +122,7 @@ def build(env, eff_i, pre_i, c0, c1, goal_i, second):
     if pre_i is not None:
         act0.add_precondition(cond(pre_i))
     slots = [c0, c1]
-    tgt = {"l": F(l1), "q": F(q), "e": F(e), "n": F(n), "A2.m": em.Dot(A2, F(m))}
+    tgt = {"l": F(l1), "q": F(q), "e": F(e), "n": F(n)}
     for t, kind, val, slot in EFFS[eff_i]:
         c = cond(slots[slot]) if slot is not None else em.TRUE()
         if kind == "set":
@@ -256,9 +257,18 @@ def h_ma(ctx, compiler, eff_i, second=False, pres=None, conds=None):
         ok0, n0 = b["st0"][key]
         return z3.Not(b["R0"].states_equal(b["s0"], n0))
 
+    # label only (narrows known-finding globs): constructs of A1.act0 that are involved in recorded defects
+    effs = EFFS[eff_i]
+    slots = [c0, c1]
+    cls = "plain"
+    if compiler == "cerm" and sum(1 for t, k, *_ in effs if t == "n") >= 2 and any(k == "assign" for t, k, *_ in effs if t == "n"):
+        cls = "numeric-conflict"
+    if compiler == "dcrm" and any(k in ("inc", "dec") and sl is not None and slots[sl] in (3, 6, 8) for _t, k, _v, sl in effs):
+        cls = "incdec-under-disjunction"
     deferred = []
     for key in [_gkey(ma, objs) for ma, objs in setup()["gas0"]]:
         lab = f"{key[0]}.{key[1]}"
+        lcls = cls if lab == "A1.act0" else "plain"
 
         def q_lost(key=key, effectful=True):
             b = setup()
@@ -267,7 +277,7 @@ def h_ma(ctx, compiler, eff_i, second=False, pres=None, conds=None):
             ch = changed(b, key)
             return z3.And(b["wf"], ok0, z3.Not(anyv), ch if effectful else z3.Not(ch)), {}
 
-        ctx.forall(lambda: q_lost(effectful=True), None, f"{compiler}:applicable-but-no-variant:state-changing:{lab}",
+        ctx.forall(lambda: q_lost(effectful=True), None, f"{compiler}:applicable-but-no-variant:state-changing:{lcls}:{lab}",
                    f"{lab}{key[2]} is applicable and changes the state but no compiled variant mapping back to it is applicable [{g.desc}]")
         deferred.append((q_lost, lab, key))
 
@@ -277,7 +287,7 @@ def h_ma(ctx, compiler, eff_i, second=False, pres=None, conds=None):
             bad = [z3.And(ok, z3.Not(z3.And(ok0, b["R0"].states_equal(n0, n1, keys=b["R0"].gkeys)))) for ok, n1 in b["st1"][key]]
             return z3.And(b["wf"], z3.Or(bad)) if bad else False, {}
 
-        ctx.forall(q_variant, None, f"{compiler}:variant-differs:{lab}",
+        ctx.forall(q_variant, None, f"{compiler}:variant-differs:{lcls}:{lab}",
                    f"a compiled variant of {lab}{key[2]} is applicable where the original is not, or yields a different successor [{g.desc}]")
         if compiler == "cerm":
             def q_multi(key=key):
